@@ -101,6 +101,9 @@ class C06(fw.Prop):
                 ops += [["send", "setReq", 1, rng.choice([1, 130, 300])], p.resp("setResp")]
             elif r < 0.8:
                 ops += [["send", "actReq", 1], p.resp("actResp")]
+            elif r < 0.84:
+                # the meter answers with an exception-response that reports an invocation counter (lower / far higher than ours)
+                ops += [["send", "getReq", 1], p.resp(rng.choice(["exceptionRespIc", "exceptionRespIcBig"]))]
             elif r < 0.87:
                 ops += [["send", "getReq", 1], ["send", "getReq", 1], p.resp("getRespErr")]     # a refused send in between
             elif r < 0.93:
@@ -113,7 +116,9 @@ class C06(fw.Prop):
         for start in (0, 1, 255, 2 ** 32 - 200, 2 ** 32 - 4, 2 ** 32 - 1):
             for hls in (True, False):
                 for rep in range(12 if deep else 2):
-                    cfg = cl.Cfg(ek=EK, ak=AK, auth=5 if hls else None, cic=start)
+                    # (every third session with the dedicated-ciphering option: the library announces a dedicated key but all
+                    #  protection still runs on the global key and its one counter)
+                    cfg = cl.Cfg(ek=EK, ak=AK, auth=5 if hls else None, cic=start, dedicated=(rep + start) % 3)
                     p = Path("hls", cfg)
                     ops = self.session_ops(rng, p, rng.randint(3, 40 if deep else 12), hls)
                     yield self.make_case({"cfg": cfg.to_json(), "ops": ops, "tag": "session"})
@@ -149,6 +154,16 @@ class C06(fw.Prop):
             ops = [["send", "aarq", 1], first_aare, ["send", "getReq", 1], first_get, ["send", "rlrq", 1], p.resp("rlre"),
                    ["send", "aarq", 1], first_aare, p.resp("aare", (0, None)), ["send", "getReq", 1], first_get, p.resp("getRespNormal")]
             yield self.make_case({"cfg": cfg.to_json(), "ops": ops, "tag": "replay-after-release"})
+        # a recorded genuine APDU replayed with bits of its (unauthenticated) envelope changed: security-control byte with the
+        # key-set / compression bit, another system title - still a replay
+        for bits in (0x40, 0x80, 0xC0):
+            cfg = cl.Cfg(ek=EK, ak=AK, pre=True, state="READY", meter_title=MT, cic=3, mic=1)
+            ops = []
+            for ic, env_sc, env_title in ((2, 48, MT), (2, 48 + bits, MT), (4, 48, MT), (4, 48 + bits, MT), (2, 48 + bits, MT), (4, 48, "5858580000000009")):
+                ops.append(["send", "getReq", 1])
+                ct = f"seal:{EK[0]}:{EK[1]}:{MT}:{ic}:48:{AK[0]}:{AK[1]}:s.getRespNormal"
+                ops.append(["recv", ["ggc", env_title, str(env_sc), str(ic), ct], None])
+            yield self.make_case({"cfg": cfg.to_json(), "ops": ops, "tag": "replay-envelope-bits"})
         # received counter orderings
         for rep in range(60 if deep else 10):
             cfg = cl.Cfg(ek=EK, ak=AK, pre=True, state="READY", meter_title=MT, cic=rng.choice([0, 5]), mic=rng.choice([0, 10, 1000]))
